@@ -293,12 +293,31 @@ class Program:
                     pass
 
     # ------------------------------------------------------------------
+    def _reference_signatures(self):
+        """qualname -> parameter names, as confirmed on the reference tree (sa/known_signatures.json)."""
+        if not hasattr(self, "_ref_sigs"):
+            import json
+            p = os.path.join(os.path.dirname(os.path.abspath(__file__)), "known_signatures.json")
+            self._ref_sigs = json.load(open(p)) if os.path.exists(p) else {}
+        return self._ref_sigs
+
     def func(self, qualname: str) -> FuncInfo:
         q = qualname if qualname.startswith(self.pkg_name + ".") else f"{self.pkg_name}.{qualname}"
         fi = self.functions.get(q)
-        if fi is None:
-            raise AnalysisError(f"anchored function {q} not found in the package")
-        return fi
+        if fi is not None:
+            return fi
+        # renamed / moved private helper: a function that did not exist on the reference tree, has exactly the reference
+        # parameter list of the missing anchor and is unique with that property stands in for it
+        ref = self._reference_signatures()
+        want = ref.get(q)
+        if want is not None and q.rsplit(".", 1)[-1].startswith("_"):
+            cands = [f for fq, f in self.functions.items() if fq not in ref and f.params == want and (f.cls is None) == ("." not in q[len(self.pkg_name) + 1:].rsplit(".", 1)[0] or True)]
+            cands = [f for f in cands if f.name.startswith("_") and f.parent is None]
+            if len(cands) == 1:
+                self.renamed = getattr(self, "renamed", {})
+                self.renamed[q] = cands[0].qualname
+                return cands[0]
+        raise AnalysisError(f"anchored function {q} not found in the package")
 
     def has_func(self, qualname: str) -> bool:
         q = qualname if qualname.startswith(self.pkg_name + ".") else f"{self.pkg_name}.{qualname}"
